@@ -276,7 +276,8 @@ class WindowGenerator(object):
         self.ns = int(ns)
         self.nswin = int(nswin)
         self.overlap = int(overlap)
-        self.nwin = max(int(np.ceil(float(ns - nswin) / float(nswin - overlap))), 0) + 1
+        # from the converted lengths: the arguments may be unsigned numpy integers, whose differences wrap around
+        self.nwin = max(int(np.ceil(float(self.ns - self.nswin) / float(self.nswin - self.overlap))), 0) + 1
         self.iw = None
 
     @property
